@@ -91,7 +91,7 @@ def plan(tier):
 
 
 def floors(tier):
-    return {"probed-callables>=140": 1, "unprobed<=6": 1, "calls:returned": 6000, "calls:raised": 500, "alias-probes": 300, "sets-probed": 800, "suite:evaluations": 200}
+    return {"probed-callables>=140": 1, "unprobed<=6": 1, "calls:returned": 6000, "calls:raised": 500, "alias-probes": 300, "sets-probed": 800, "suite:evaluations": 400}
 
 
 # ---------------------------------------------------------------------------------
